@@ -123,6 +123,8 @@ pub fn normalize(raw: &Case, opts: &NormOpts) -> Case {
         }
     }
     let may_block = may_block;
+    // the lowest pool maximum in force at any point of the case
+    let min_pool = case.phases.iter().flat_map(|p| p.root.iter()).filter_map(|a| match a { RootAct::SetPool { n } | RootAct::SetPoolPublic { n, .. } => Some(*n), _ => None }).chain(std::iter::once(base_cfg.pool)).min().unwrap();
     for ph in case.phases.iter_mut() {
         // the pool maximum in force during this phase decides which pool-0 scope rules apply
         for act in ph.root.iter() {
@@ -268,7 +270,9 @@ pub fn normalize(raw: &Case, opts: &NormOpts) -> Case {
                     Op::SyncWait { slot } => {
                         let s = sl(*slot);
                         match slots[s] {
-                            Some(si) if si.kind == SK::FutDesync && !si.polled && can_block_on(si.obj) => {
+                            // (.sync() after a poll: the queue the poll parked is resumed by a pool thread when the
+                            // operation is woken, so it needs one)
+                            Some(si) if si.kind == SK::FutDesync && ((!si.polled && can_block_on(si.obj)) || (si.polled && min_pool >= 1 && hold.map_or(true, |(hs, _)| hs == s))) => {
                                 slots[s] = None;
                                 Op::SyncWait { slot: s as u8 }
                             }
